@@ -8,6 +8,7 @@ import (
 	"sort"
 	"strconv"
 	"strings"
+	"sync/atomic"
 	"testing"
 	"testing/cryptotest"
 	"testing/synctest"
@@ -102,11 +103,17 @@ func RunBatch(t *testing.T, world WorldFunc, c BatchConfig) *Summary {
 	distinct := map[string]bool{}
 	hashes := map[string]bool{}
 	seen := map[string]*ReportedViolation{}
+	var curSeed atomic.Uint64
+	if c.Out != "" {
+		StartWatchdog(c.Out+".hang", func() string { return fmt.Sprint(curSeed.Load()) })
+	}
 	for i := 0; i < c.Runs; i++ {
 		if time.Since(start) > c.WallLimit {
 			break
 		}
 		seed := c.SeedFor(i)
+		curSeed.Store(seed)
+		Tick()
 		spec := Spec{Prop: c.Prop, Seed: seed}
 		if c.Out != "" {
 			// lets the driver attribute a process crash (a panic in a goroutine the library started) to a seed
